@@ -7,8 +7,66 @@ import time
 from concurrent.futures import ThreadPoolExecutor
 
 
+def _build_h09(ctx):
+    """Comparison-trace build: library, REST layer and selected std packages with -d=libfuzzer, the js/wasm
+    validation files compiled natively through an overlay, an exported router hook added to the api package."""
+    import json as _json, re as _re, shutil
+    work, repo, root = ctx["work"], ctx["repo"], ctx["root"]
+    ov = os.path.join(work, "ov")
+    os.makedirs(ov, exist_ok=True)
+    repl = {}
+    for src, name in (("validate_wasm.go", "zz_verif_validate_w.go"), ("derive_rfc4226_wasm.go", "zz_verif_derive_w.go")):
+        text = open(os.path.join(repo, src)).read()
+        text2 = _re.sub(r"(?m)^//go:build js && wasm\s*$", "", text, count=1)
+        if text2 == text:
+            ctx["infra"]("%s has no 'js && wasm' build line any more: the overlay cannot compile it natively" % src)
+        open(os.path.join(ov, name), "w").write(text2)
+        repl[os.path.join(repo, name)] = os.path.join(ov, name)
+    open(os.path.join(ov, "api_export.go"), "w").write(
+        "package api\n\nimport \"github.com/valyala/fasthttp\"\n\n// VerifHandle runs the router on a request context (build overlay of /verif/h09).\nfunc VerifHandle(ctx *fasthttp.RequestCtx) { routers(ctx) }\n")
+    repl[os.path.join(repo, "internal", "app", "api", "zz_verif_export.go")] = os.path.join(ov, "api_export.go")
+    moddir = os.path.join(root, "h09")
+    # ordering comparisons are implemented in assembly and emit no compiler event: hook the two
+    # library entry points (strings.Compare, bytes.Compare) through an overlay of the std sources
+    rc, goroot = ctx["run"](["go", "env", "GOROOT"], moddir, ctx["env"], 60)
+    goroot = goroot.strip().splitlines()[-1] if rc == 0 and goroot.strip() else ""
+    sc = os.path.join(goroot, "src", "strings", "compare.go")
+    bc = os.path.join(goroot, "src", "bytes", "bytes.go")
+    hooked = 0
+    if os.path.exists(sc):
+        t = open(sc).read()
+        t2 = t.replace("func Compare(a, b string) int {\n\treturn bytealg.CompareString(a, b)\n}",
+                       "// VerifCompareHook (overlay of /verif/h09) receives the operands of every Compare call.\nvar VerifCompareHook func(a, b string)\n\nfunc Compare(a, b string) int {\n\tif h := VerifCompareHook; h != nil {\n\t\th(a, b)\n\t}\n\treturn bytealg.CompareString(a, b)\n}")
+        if t2 != t:
+            open(os.path.join(ov, "strings_compare.go"), "w").write(t2)
+            repl[sc] = os.path.join(ov, "strings_compare.go")
+            hooked += 1
+    if os.path.exists(bc):
+        t = open(bc).read()
+        t2 = t.replace("func Compare(a, b []byte) int {\n\treturn bytealg.Compare(a, b)\n}",
+                       "func Compare(a, b []byte) int {\n\tif h := VerifCompareHook; h != nil {\n\t\th(a, b)\n\t}\n\treturn bytealg.Compare(a, b)\n}\n\n// VerifCompareHook (overlay of /verif/h09) receives the operands of every Compare call.\nvar VerifCompareHook func(a, b []byte)")
+        if t2 != t:
+            open(os.path.join(ov, "bytes_bytes.go"), "w").write(t2)
+            repl[bc] = os.path.join(ov, "bytes_bytes.go")
+            hooked += 1
+    if hooked != 2:
+        ctx["infra"]("cannot hook strings.Compare / bytes.Compare in %s (std sources differ from what the overlay expects)" % goroot)
+    _json.dump({"Replace": repl}, open(os.path.join(ov, "overlay.json"), "w"))
+    shutil.copy(os.path.join(root, "h", "common_test.go"), os.path.join(moddir, "zz_common_test.go"))
+    out = os.path.join(work, "h09.test")
+    env = dict(ctx["env"])
+    if repo != "/repo":
+        ctx["infra"]("the comparison-trace build supports VERIF_REPO=/repo only")
+    rc, o = ctx["run"](["./build.sh", out, os.path.join(ov, "overlay.json")], moddir, env, 1800, os.path.join(work, "build.log"))
+    if rc != 0:
+        ctx["infra"]("instrumented build failed", o)
+    return moddir, {"plain": out}
+
+
 def _bins(ctx):
     spec = ctx["spec"]
+    if spec.get("builder") == "h09":
+        return _build_h09(ctx)
     moddir = os.path.join(ctx["root"], spec.get("moddir", "h"))
     need = set(r.get("bin", "plain") for r in spec["runs"])
     if ctx["tier"] == "thorough" and spec.get("fuzz"):
